@@ -128,7 +128,7 @@ pub async fn run_walk(seed: u64, qlen: usize, chunk: usize, nvers: u64, steps: u
             "ingest_recv" => json!({"ev": "recv", "c": abs_change(&ev["change"]), "decision": ev["decision"], "dropped": if ev["dropped"].is_null() || ev.get("dropped").is_none() { json!({"k": "none", "a": 0, "v": 0, "lo": 0, "hi": 0}) } else { abs_change(&ev["dropped"]) },
                 "still_seen": ev["dropped"]["still_seen"].as_array().cloned().unwrap_or_default(), "key_left": ev["dropped"]["key_left"].as_bool().unwrap_or(false), "queue_len": ev["queue_len"].as_u64().unwrap_or(0)}),
             "ingest_spawn" => json!({"ev": "spawn", "site": ev["site"], "batch": ev["changes"].as_array().unwrap().iter().map(&abs_change).collect::<Vec<_>>(), "inflight": ev["inflight"]}),
-            "ingest_done" => json!({"ev": "done", "ok": ev["ok"], "inflight": ev["inflight"]}),
+            "ingest_done" => json!({"ev": "done", "ok": ev["ok"], "inflight": ev["inflight"], "forgotten": ev["forgotten"].as_array().map(|a| a.iter().map(&abs_change).collect::<Vec<_>>()).unwrap_or_default()}),
             "ingest_trim" => json!({"ev": "trim", "kept": ev["kept"]}),
             "pmc_commit" => json!({"ev": "commit", "a": idx(&ev["actor"]), "processed": ev["processed"].as_array().unwrap().iter().map(|p| json!({"vlo": p["vlo"], "vhi": p["vhi"], "partial": !p["partial"].is_null(), "seqs": p["partial"].as_array().cloned().unwrap_or_default()})).collect::<Vec<_>>()}),
             _ => continue,
